@@ -225,7 +225,13 @@ pub fn strategy() -> BoxedStrategy<Case> {
             let doc = merge_text(doc);
 
             let path: Vec<String> = plan.path.iter().map(|s| s.to_string()).collect();
-            let mut f1 = FilterSpec { action: plan.action.to_string(), path: path.clone(), selector: selector_of(plan.selector_mode), value };
+            let mut selector = selector_of(plan.selector_mode);
+            // half of the `.sel-hit` selectors are qualified with the element type of the (first) hit, or of an absent one
+            if doctype_upper && (plan.selector_mode == 2 || plan.selector_mode == 3) {
+                let ty = first_hit_tag(&doc).unwrap_or_else(|| "span".to_string());
+                selector = Some(format!("{ty}.sel-hit"));
+            }
+            let mut f1 = FilterSpec { action: plan.action.to_string(), path: path.clone(), selector, value };
             let mut filters = Vec::new();
             let used_tags: Vec<&str> = plan.path.clone();
             let new_tag = PATH_TAGS.iter().find(|t| !used_tags.contains(t)).copied().unwrap_or("aside");
@@ -266,7 +272,7 @@ pub fn run(ctx: &Ctx) -> Report {
         "C15",
         "case = well-formed generated DOM tree carrying its exact source text (attributes unquoted / single / double quoted / empty / containing > or tags, upper-case tag names, spaces before >, void and self-closing elements, entity and 'a < b' text, multi-byte text, \
          comments / scripts / styles / textareas containing fake path tags and fake selector hits) in which every element of the filter path occurs once as a direct child of the previous one (the last one possibly as repeated / void / self-closing siblings for replace); \
-         1..3 filters (3 actions x selector none / empty / matching a strict descendant or the void target itself / matching nothing x depth 1..4), later filters on a prefix path, the same path, or on an element inserted by the first; single chunk; \
+         1..3 filters (3 actions x selector none / empty / class or type+class selector matching a strict descendant or the void target itself / matching nothing x depth 1..4), later filters on a prefix path, the same path, or on an element inserted by the first; single chunk; \
          oracle = output == serialize(reference_edit(tree, filters)) with the reference working on the tree (insert before end tag / after start tag / substitute node), filter by filter; \
          non-trivial = the document changed and contains >=1 decoy (comment or raw-text element mentioning path tags, void or self-closing element); distinct by case hash",
     );
